@@ -4,9 +4,9 @@ CONSTANTS
   Bug_PushIgnoresFrozen = FALSE
   Bug_PositionFreeUnderflow = FALSE
   L = "es"
-  RLow = {0, 1, 2, 7, 10, 11, 13, 16, 19, 20, 21, 40, 71, 80, 81, 88, 99, 100, 101, 110, 119, 181, 200, 500, 999}
-  RHigh = {0, 1, 2, 21, 100, 999}
-  MaxZeros = 2
+  RLow = {0, 1, 2, 7, 10, 11, 16, 20, 21, 71, 80, 81, 88, 99, 100, 101, 181, 500, 999}
+  RHigh = {0, 1, 2, 100}
+  MaxZeros = 1
 INVARIANT NeverSplit
 INVARIANT RoundTrip
 CHECK_DEADLOCK FALSE
